@@ -49,6 +49,7 @@ type HookCtl struct {
 	parks   map[string][]*Park
 	counts  map[string]*atomic.Int64
 	perturb map[string]float64
+	onSite  map[string]func(n int64)
 	seed    atomic.Uint64
 	Reached sync.Map // site -> *atomic.Int64
 }
@@ -65,7 +66,7 @@ type Park struct {
 func (p *Park) Release() { p.once.Do(func() { close(p.release) }) }
 
 func NewHookCtl(seed uint64) *HookCtl {
-	h := &HookCtl{parks: map[string][]*Park{}, counts: map[string]*atomic.Int64{}, perturb: map[string]float64{}}
+	h := &HookCtl{parks: map[string][]*Park{}, counts: map[string]*atomic.Int64{}, perturb: map[string]float64{}, onSite: map[string]func(n int64){}}
 	h.seed.Store(seed | 1)
 	return h
 }
@@ -77,6 +78,13 @@ func (h *HookCtl) ParkNth(site string, n int64) *Park {
 	h.parks[site] = append(h.parks[site], p)
 	h.mu.Unlock()
 	return p
+}
+
+// OnSite registers a callback run (outside the controller's lock) at every arrival at the site.
+func (h *HookCtl) OnSite(site string, fn func(n int64)) {
+	h.mu.Lock()
+	h.onSite[site] = fn
+	h.mu.Unlock()
 }
 
 // Perturb makes arrivals at the site yield/spin/sleep with the given probability.
@@ -117,11 +125,15 @@ func (h *HookCtl) handle(site string) {
 			break
 		}
 	}
+	cb := h.onSite[site]
 	prob := h.perturb[site]
 	if prob == 0 {
 		prob = h.perturb["*"]
 	}
 	h.mu.Unlock()
+	if cb != nil {
+		cb(n)
+	}
 	if park != nil {
 		close(park.Arrived)
 		<-park.release
